@@ -62,6 +62,10 @@ func (m *Mutex) Unlock() {
 type RWMutex struct {
 	writer  bool
 	readers int
+	// writers blocked in Lock: as with sync.RWMutex, a pending writer
+	// keeps new readers out (which is what makes a recursive RLock a
+	// deadlock as soon as a writer arrives in between)
+	waitingWriters int
 }
 
 func (m *RWMutex) Lock() {
@@ -74,7 +78,9 @@ func (m *RWMutex) Lock() {
 		return
 	}
 	s.Point("RWMutex.Lock")
+	m.waitingWriters++
 	s.Wait("RWMutex.Lock", func() bool { return !m.writer && m.readers == 0 })
+	m.waitingWriters--
 	m.writer = true
 }
 
@@ -98,7 +104,7 @@ func (m *RWMutex) RLock() {
 		return
 	}
 	s.Point("RWMutex.RLock")
-	s.Wait("RWMutex.RLock", func() bool { return !m.writer })
+	s.Wait("RWMutex.RLock", func() bool { return !m.writer && m.waitingWriters == 0 })
 	m.readers++
 }
 
